@@ -11,6 +11,9 @@ CHECKS = {
  "C03": "Coq theorems (props/C03.v) for every i64 timestamp: from_timestamp/timestamp round trip with the exact instant, floor to the day for Date, panic exactly outside the range (also under wrapping arithmetic); DateTime ==/</cmp are those of the UTC instants for all pairs and offsets. Tied to /repo by a differential run.",
  "C04": "Coq theorems (props/C04.v): for every DateTime satisfying the representation invariant, every count and each of the 7 units, add_/sub_ and +/- Duration, +/- Time return the value whose instant is exactly moved (offset kept) when representable and panic otherwise; Date +/- days and Durations likewise. Tied to /repo by a differential run in the dev (overflow-checked) and release (wrapping) profiles.",
  "C06": "Coq theorems (props/C06.v): for all pairs of DateTimes, <unit>_since equals the difference of the instants divided by the unit truncated toward zero (7 units), duration_between is the absolute difference; antisymmetry and inversion of add as corollaries. Tied to /repo by a differential run.",
+ "C02": "Coq theorems (props/C02.v) for every integer day number: weekday anchored at Thursday 1970-01-01 and advancing by one mod 7; day of year = 1 + days since 1 January; format(w) equals the ISO-8601 week defined by the week's Thursday (complete in-kernel sweep of one 146097-day cycle, lifted to all days by a proved periodicity lemma); set_day_of_year lands on the n-th day of the same year or is refused. Tied to /repo by a differential run.",
+ "C05": "Coq theorems (props/C05.v): for every day number and every count, add_/sub_months and add_/sub_years equal the month-index specification (same day of month, clamped to the target month's length, year -1 directly before year 1) when the target is in range and fail (API: panic) exactly otherwise; N years = 12N months. Tied to /repo by a differential run.",
+ "C07": "Coq theorems (props/C07.v): for all pairs of (day, nanosecond) values, months_since is the unique n with b+n months <= a < b+(n+1) months when a >= b and b's day <= 28; years = months/12 truncated; antisymmetric and monotone for all pairs. Tied to /repo by a differential run.",
  "C08": "Coq theorems (props/C08.v): every Time reachable through any list of public operations stays inside [0, 24 h) (induction over the operation list), add_/sub_/operators compute (t +/- amount) mod 24 h keeping the offset, constructors accept exactly in-day values, equal fields imply equal values. Tied to /repo by a differential run.",
 }
 def chk(pid, text):
@@ -21,7 +24,7 @@ def chk(pid, text):
             "level_note": NOTE, "technique": TECH}
 NA = {
 }
-PENDING = ["C02","C05","C07","C09","C10","C11","C12","C13","C14","C15","C16","C17","C18","C19","C20"]
+PENDING = ["C09","C10","C11","C12","C13","C14","C15","C16","C17","C18","C19","C20"]
 m = {
  "version": 1,
  "setup_cmd": "./setup.sh",
